@@ -41,6 +41,8 @@ def rand_case(rng):
             whole = rng.random() < 0.6
             cons.append(dict(kind="gcwin", mini=rng.choice([0.0, 0.25, 0.3]), maxi=rng.choice([0.7, 0.75, 1.0]), window=w,
                              location=None if whole else problems.rand_loc(rng, n, w, strands=(1, 0))))
+        elif r < 0.72:
+            cons.append(dict(kind="keep_edits", max_edits=rng.randint(1, 2), location=problems.rand_loc(rng, n, 3, strands=(1, 0))))
         elif r < 0.85:
             cons.append(hard.rand_hard_constraint(rng, seq, ["keep", "keep_idx"]))
         else:
@@ -75,9 +77,35 @@ def rand_case(rng):
     return desc
 
 
+def budget_case(rng):
+    """regions with a positive edit budget (AvoidChanges max_edits > 0) holding more forbidden sites than the budget
+    allows, next to / across the origin: every view built during the solve must count edits against the original"""
+    site = rng.choice(["GGTCTC", "CGTCTC", "GAATTC", "ACGT", "ATGCAT"])
+    k = len(site)
+    n = rng.randint(4 * k + 6, 60)
+    w = rng.randint(k + 2, 2 * k + 4)
+    seq = list(hard.rand_seq(rng, n))
+    cons = []
+    regions = rng.choice([[(0, w)], [(n - w, n)], [(0, w), (n - w, n)], [(rng.randint(1, n - w - 1),) * 2]])
+    regions = [(a, a + w) if a == b else (a, b) for a, b in regions]
+    for a, b in regions:
+        for j in rng.sample(range(a, b - k + 1), min(2, b - k + 1 - a)):
+            seq[j:j + k] = site
+        cons.append(dict(kind="keep_edits", max_edits=1, location=[a, b, rng.choice([0, 1])]))
+    if rng.random() < 0.5:
+        j = rng.randint(1, k - 1)
+        seq[n - j:] = site[:j]
+        seq[:k - j] = site[j:]
+    cons.append(dict(kind="pattern", pattern=site, location=None))
+    if rng.random() < 0.5:
+        cons.reverse()
+    return dict(sequence="".join(seq), constraints=cons, objectives=[], settings=problems.rand_settings(rng),
+                np_seed=rng.randint(0, 10 ** 6), planted=True)
+
+
 def gen_cases(rng, n):
-    for _ in range(n):
-        yield dict(desc=rand_case(rng), op="circ_resolve")
+    for i in range(n):
+        yield dict(desc=budget_case(rng) if i % 8 == 5 else rand_case(rng), op="circ_resolve")
 
 
 def cyclic_breaches(desc, s):
